@@ -307,6 +307,45 @@ def run(ctx):
         p.outcome = 'normal'
     ctx.add_exploration('pynetdicom2._get_storage_file', storage_file, res2, target='pynetdicom2._get_storage_file')
 
+    # ------------------------------------------------------------------ the directory-backed entities' get_file
+    # StorageAE.get_file / ClientStorageAE.get_file are what the decoder calls (C07: get_file_cb): they must hand
+    # the context, the command set and *their own storage directory* to _get_storage_file and return its result.
+    def entity_get_file(p, cls_name):
+        from ..values import Builtin
+        label = 'pynetdicom2.%s.get_file' % cls_name
+        ob = obl(p, label)
+        calls = []
+        result = (Stream(b'', b'', 'storage-file'), p.fresh_int('start'))
+
+        def recording(it2, a, kw):
+            calls.append((tuple(a), dict(kw)))
+            return result
+        real = top.attrs['_get_storage_file']
+        top.attrs['_get_storage_file'] = Builtin('_get_storage_file(stub)', recording)
+        me = Obj(top.attrs[cls_name])
+        me.fields['storage_dir'] = p.fresh('storage_dir', smt.Str)
+        c, cs = Opaque('context'), Opaque('command set')
+        try:
+            r = it.call(top.attrs[cls_name].lookup('get_file')[0], [me, c, cs], {})
+        except Raised as e:
+            ob('noexc', False, exception=e.exc.cls.name)
+            p.outcome = 'normal'
+            return
+        finally:
+            top.attrs['_get_storage_file'] = real
+        ok = len(calls) == 1 and len(calls[0][0]) == 3 and not calls[0][1]
+        ob('one-file-per-received-instance', ok)
+        if ok:
+            a = calls[0][0]
+            ob('file-for-this-context-and-command-set', a[0] is c and a[1] is cs)
+            ob('file-in-the-entitys-storage-directory', a[2] is me.fields['storage_dir'])
+        ob('returns-the-created-file-and-start', r is result)
+        p.outcome = 'normal'
+    for cls_name in ('StorageAE', 'ClientStorageAE'):
+        infos.append(verify.function_info(it, top.attrs[cls_name].lookup('get_file')[0]))
+        ctx.add_exploration('pynetdicom2.%s.get_file' % cls_name, lambda p, cls_name=cls_name: entity_get_file(p, cls_name),
+                            res2, target='pynetdicom2.%s.get_file' % cls_name)
+
     from .. import replay as _replay
 
     def replayer(ctx2, ob, model):
